@@ -11,6 +11,8 @@ use crate::{
 pub enum OpWhat {
     Send,
     Call,
+    /// a call whose future the client dropped before it resolved
+    CallAbandoned,
     Ping,
     Stop,
     Halt,
@@ -62,11 +64,13 @@ pub enum OpRes {
     Reg(RegRes),
     /// a new handle was created
     Made(HKind),
+    /// the client dropped the operation's future before it resolved
+    Abandoned,
 }
 
 impl OpRes {
     pub fn is_ok(&self) -> bool {
-        !matches!(self, OpRes::Err(_) | OpRes::Joined(None) | OpRes::Opt(false))
+        !matches!(self, OpRes::Err(_) | OpRes::Joined(None) | OpRes::Opt(false) | OpRes::Abandoned)
     }
     pub fn is_err(&self) -> bool {
         matches!(self, OpRes::Err(_))
